@@ -33,11 +33,17 @@ RULES = [
     (r"^NewWorkerPool$", "C12 C08 C19"), (r"^WorkerPool_", "C12 C08"),
     (r"^(NewResult|R)$", "C17 C16 C15"), (r"^NewErrorResult$", "C17"), (r"^Result_(IsError|Value|Error)$", "C17 C15"),
     (r"^Result_(Bind|MustBind)$", "C16"), (r"^SharedStore_(Bind|MustBind)$", "C16"),
-    (r"^Result_", "C15"), (r"^ToSlice$", "C15 C06 C07"), (r"^(As|MustAs)$", "C15"),
+    (r"^Result_", "C15"), (r"^ToSlice$", "C15 C06 C07 C13"), (r"^Result_(IsNil|Type)$", "C15 C16"), (r"^(As|MustAs)$", "C15"),
     (r"^SharedStore_Get(String|Int|Float64|Bool|Slice|Map)", "C15 C13"),
-    (r"^SharedStore_", "C13 C14"), (r"^NewSharedStore$", "C14"),
+    (r"^SharedStore_Get$", "C13 C14 C15 C16"), (r"^SharedStore_", "C13 C14"), (r"^NewSharedStore$", "C14"),
     (r"^BatchError_Error$", ""),
 ]
+CLUSTER = (r"^(Run|runExecWithRetries|runBatchSequential|runBatchConcurrent|runBatch|markUnprocessed|Flow_Exec|Flow_Run|Flow_Prep|Flow_Post|"
+           r"CustomNode_\w+|BaseNode_(Prep|Exec|Post|ExecFallback|Get\w+)|NodeBuilder_(Prep|Exec|Post|ExecFallback|Get\w+)|"
+           r"BatchNodeBuilder_(Prep|Exec|Post)|BatchNode_(Prep|Post)|NewResult|NewErrorResult|Result_IsError|Result_Value|ToSlice)$")
+ORCH = "C01 C02 C03 C04 C05 C06 C07 C08 C09 C10 C11 C17 C18 C19 C20"
+POOL = r"^(NewWorkerPool|WorkerPool_\w+)$"
+BATCHP = ORCH + " C12"
 DOC = ("the translation of `%s` from the current source is, term for term, the expected IR (regenerated on every run; `rfl`)"
        " — any change of the function's syntax tree breaks this obligation")
 src = open(os.path.join(V, "lean/FlytModel/Expected/IR.lean")).read()
@@ -59,6 +65,12 @@ for f in funcs:
     if props is None:
         unassigned.append(f)
         continue
+    # the orchestration core is ONE mutually recursive cluster (Run -> node.Exec -> Flow.Exec / runBatch -> Run ...): every property
+    # that is about runs of nodes — of every kind — is carried by all of it (call-graph closure of its own functions)
+    if re.search(CLUSTER, f):
+        props = sorted(set(props) | set(ORCH.split()))
+    elif re.search(POOL, f):
+        props = sorted(set(props) | set(BATCHP.split()))
     if not props:
         continue
     open(os.path.join(tiedir, f + ".lean"), "w").write(
